@@ -11,7 +11,7 @@
     so Reach only contains histories in which the code did not panic; C14_no_panic shows that is every
     history when min(rf, N) <= 12 and C14_capacity_refuted that it is not when min(rf, N) = 13. *)
 From Coq Require Import NArith List.
-From SV Require Import Model.Topology Model.Placement Proofs.PlacementProofs.
+From SV Require Import Model.Topology Model.Placement Proofs.PlacementProofs Proofs.MembershipProofs.
 Import ListNotations.
 Open Scope N_scope.
 
@@ -81,6 +81,29 @@ Example C14_example : exists s1 s2,
   nth 0 (ts_replicas s1) [] = [0; 1; 2] /\ nth 0 (ts_replicas s2) [] = [0; 1; 2].
 Proof. exact order_example_now. Qed.
 
+(* "the live members a node knows" is a function of what it heard: after ANY history of connects, heartbeats,
+   disconnects and time-outs (every configuration, every starting state, every peer y) the manager knows y iff
+   the specification [heard] says so: y's last event was a connect or a heartbeat (or there was none and it was
+   known before); a time-out of the node itself changes nothing. Two managers that heard the same therefore know
+   the same members, and C14_order_independent gives them the same replica sets and coordinator order. *)
+Theorem C14_membership : forall c l es s s', m_run c l s es = Some s' ->
+  forall y, knows s' y = heard (l_peer l) (knows s) es y.
+Proof. exact membership_heard. Qed.
+
+Theorem C14_membership_init : forall c l s, t_init c l = Some s -> forall y, knows s y = N.eqb (l_peer l) y.
+Proof. exact init_knows. Qed.
+
+(* a peer that timed out and is heard again is known again *)
+Theorem C14_heard_again : forall c l s x a i a' i' s', x <> l_peer l ->
+  m_run c l s [MConnect x a i; MTimeout x; MHeartbeat x a' i'] = Some s' -> knows s' x = true.
+Proof. exact heard_again. Qed.
+
+Example C14_heard_again_example :
+  exists s0 s', t_init (w_cfg W_now) (local_of W_now 0) = Some s0 /\
+    m_run (w_cfg W_now) (local_of W_now 0) s0 [MConnect 1 5 1; MTimeout 1; MHeartbeat 1 5 1] = Some s' /\
+    knows s' 1 = true /\ knows s' 2 = false /\ knows s' 0 = true.
+Proof. exact heard_again_example. Qed.
+
 Print Assumptions C14_count.
 Print Assumptions C14_window.
 Print Assumptions C14_order_independent.
@@ -89,3 +112,6 @@ Print Assumptions C14_capacity_refuted.
 Print Assumptions C14_u8_ok_below_256.
 Print Assumptions C14_u8_refuted_256.
 Print Assumptions C14_order_refuted_before_fix.
+Print Assumptions C14_membership.
+Print Assumptions C14_membership_init.
+Print Assumptions C14_heard_again.
